@@ -1,5 +1,6 @@
 """C08, Python side: readCurrent before every write descent, nowhere else."""
 import ast
+import copy
 
 from ..common import AnalysisError, SRC
 from .. import pyfront
@@ -58,6 +59,39 @@ def _declares(stmts, node, whole=False):
     return False
 
 
+class _Subst(ast.NodeTransformer):
+    def __init__(self, m):
+        self.m = m
+
+    def visit_Name(self, n):
+        if isinstance(n.ctx, ast.Load) and n.id in self.m:
+            return copy.deepcopy(self.m[n.id])
+        return n
+
+
+def _inline_p_aliases(body, node):
+    """leading `name = node._p_xxx` statements (pure reads of persistence
+    attributes, which do not activate a ghost) are substituted into the rest"""
+    m = {}
+    i = 0
+    while i < len(body):
+        st = body[i]
+        if isinstance(st, ast.Expr) and isinstance(st.value, ast.Constant):
+            i += 1
+            continue
+        if isinstance(st, ast.Assign) and len(st.targets) == 1 and isinstance(st.targets[0], ast.Name) and \
+                isinstance(st.value, ast.Attribute) and isinstance(st.value.value, ast.Name) and \
+                st.value.value.id == node and st.value.attr in ("_p_jar", "_p_oid", "_p_serial"):
+            m[st.targets[0].id] = st.value
+            i += 1
+            continue
+        break
+    if not m:
+        return body
+    sub = _Subst(m)
+    return [sub.visit(copy.deepcopy(st)) for st in body[i:]]
+
+
 def declaring_helpers(tree):
     """module-level functions / methods f(node) whose whole effect is the
     guarded read declaration of their parameter"""
@@ -65,7 +99,8 @@ def declaring_helpers(tree):
     for fn in ast.walk(tree):
         if isinstance(fn, ast.FunctionDef) and fn.args.args:
             node = fn.args.args[0].arg
-            if _declares(fn.body, node, whole=True) and _calls(fn, "readCurrent"):
+            body = _inline_p_aliases(fn.body, node)
+            if _declares(body, node, whole=True) and _calls(fn, "readCurrent"):
                 out.add(fn.name)
     return out
 
